@@ -1,36 +1,5 @@
-"""Per-property claim texts for MANIFEST.json."""
+"""Claim texts live in bin/plans/Cxx.py (CLAIM); this module only carries the shared bits."""
+import plan
 HOOK_COMMITS = []
 NOT_CLAIMED = {}
-TECH = 'TLA+ spec (L1 semantics) + TLC: bounded model checking, TLC-generated cases replayed into engeom, TLC trace validation of recorded observations'
-CLAIMS = {
-    'C01': {
-        'text': 'TLC enumerates every input vertex sequence of up to 3 points on a 4x4 (quick) / 5x5 (thorough) lattice with integer-length steps, including repeated points and steps merged by a one-unit tolerance, x tolerance kind x force_closed x 2D/3D (three liftings) x power-of-two scales, and for each curve every half-lattice arc length from below 0 to above L plus every vertex length +-1 ulp (as an infinitesimal), the same places by fraction, by iteration and front/back; the laws of the length/position operators are model-checked; every case is run through Curve2/Curve3 and TLC judges vertex list, closedness, cumulative lengths and every station (None exactly outside [0,L]; index+fraction reproduce l; exact rational point; edge direction or the vertex rule; normal) against the L1 operators. Seeded random 4..40-vertex lattice curves with Pythagorean edges extend the instance sizes.',
-        'design_ref': 'DESIGN.md section 6 C01',
-        'note': 'Trusted: TLC, harness projection (2^-16 unit quantisation, next_up/next_down for the infinitesimals). Edge lengths are integers times 2^k; irrational edge lengths are not in the exact domain. Vertices where adjacent directions cancel are exempt from the direction clause.',
-        'technique': TECH,
-    },
-    'C04': {
-        'text': 'A TLA+ history machine (root curve, then between / by-control / split_open / split_closed / trim_front / trim_back / reversed, each applied to the previous result) carries the abstract current curve as a stretch (start, travel, sense) of the root; TLC checks its conservation laws (pieces meet and add up, reversal is an involution, ends stay in range) in every reachable state, enumerates every depth-1 behaviour over all half-lattice parameters (including on vertices, on the seam, same edge, zero travel, reversed on open, out of range by half a unit) for a curated root set (closed square/rectangle/3-4-5 triangle, open L, collinear run, doubling back, self-crossing, seam in mid-edge) and samples depth-5 histories in simulation mode; every behaviour is replayed into Curve2 and TLC judges each step: None exactly for ill-posed requests, otherwise end points, length, closedness and the traced path (vertex list modulo straight-through vertices) against the exact rational stretch; split pieces meet and sum.',
-        'design_ref': 'DESIGN.md section 6 C04',
-        'note': 'Trusted: TLC, harness projection (1/640 unit quantisation), derived curves closed only by self-touching of an open root are excluded from histories, tolerance tiny so only zero travel exercises the tolerance guard. airfoil helper consumers are not driven here.',
-        'technique': TECH,
-    },
-    'C05': {
-        'text': 'TLC enumerates resampling by count (2..6/9), by spacing and by maximum spacing (spacings below, dividing, equal to and above the length) of curated open and closed lattice curves in 2D and 3D at power-of-two scales from 2^-10 to 2^7 (so total lengths from 1e-3 to 1e3), checks the spacing arithmetic laws, and enumerates simplification (tolerances 0, 1/4, 1, 2 units; open and force-closed; collinear runs, doubling back, rings) and gap filling of every 3-point sequence on a 3x3/4x4 lattice plus curated ones; every case runs through the library and TLC judges: each result vertex is the exact rational point at the prescribed arc length (count; centred equal margins; even spacing not above the maximum with a minimal count), success for every length, kept subsequence with both ends and closedness, every discarded vertex within tolerance of the simplified polyline (exact rational point-segment distance), originals kept in order with no gap above the maximum and inserts on their segment. Seeded random (length, count/spacing) pairs up to 64 samples probe rounding of the last position.',
-        'design_ref': 'DESIGN.md section 6 C05',
-        'note': 'Trusted: TLC, harness projection (2^-14 unit). Coincident consecutive samples on self-touching curves may merge; a single-sample result may be an error. The camber/series consumers are not driven here. Four defects found by this check were repaired (fix: commits, see known_findings.json).',
-        'technique': TECH,
-    },
-    'C12': {
-        'text': 'TLC enumerates every ordered list of up to 3 oriented faces over 5 vertices (and up to 4 faces over 4 vertices, which contains the closed tetrahedron) with no edge in more than two faces - vertex-only contacts, flipped faces, several components included - and on each: (MC) the transcription of the boundary walk satisfies the L1 partition of the boundary edges, and the L2 state machine of the patch flood fill, with the seed face drawn by an existential (= every hash iteration order), always terminates within its work bound in the L1 equivalence classes; every face list is then run in a memory- and time-limited child process through calc_edges/get_patches six times (fresh hash seeds) and TLC judges edge table, edge lengths, loops (each boundary edge exactly once as closed walks), patches (exact equivalence classes) and equality of all repetitions as sets. A second instance enumerates index-pair lists (<=3 pairs on 5 labels: exactly-once, contiguity, maximality in the simple case), all voxel subsets of a 3x2x2 block (26-connectivity classes, four hash orders) and box/cylinder sizes (manifold, consistently wound, outward normals). Seeded random triangulated grids with holes, missing and flipped triangles extend sizes.',
-        'design_ref': 'DESIGN.md section 6 C12',
-        'note': 'Trusted: TLC; hash orders of the real code are sampled (6 repetitions), the model covers all; non-termination is observed as exceeding a 3 s / 2 GB limit on inputs of <= 40 faces. Three defects found here were repaired (fix: commits); the L2 models transcribe the repaired algorithms.',
-        'technique': TECH + '; L2 algorithm transcriptions with hash order as existential quantification',
-    },
-    'C18': {
-        'text': 'TLC enumerates every lattice angle k*TAU/16 (|k|<=40/64, each +-1 ulp), every pair for directed angles, all pairs of lattice vectors in [-2,2]^2, every (start, extent) angular interval on Z_16 x -18..18 against 72 test angles, the full intersects table and all scalar intervals over {-inf,-2..2,+inf}; checks the arc/interval algebra laws on the spec; every case is executed by the real library and TLC judges each observation against the L1 set semantics (results free only within ANGLE_TOL of arc ends). Random finite angles up to 1e6 are judged through sin/cos agreement. This is the right level because the property is a finite case analysis around wrap points that the lattice hits exactly.',
-        'design_ref': 'DESIGN.md section 6 C18',
-        'note': 'Trusted: TLC, the harness projection (quantisation, three-way comparisons with the range bounds), lattice stands for the continuum. Not a proof for all reals.',
-        'technique': TECH,
-    },
-}
+CLAIMS = plan.CLAIMS
